@@ -224,9 +224,11 @@ structure Cr where
   domainOk : Bool -- OIDC: e-mail domain test of ValidatePayload passes
   groupOk : Bool  -- OIDC: group filter of ValidatePayload passes
   identOk : Bool  -- OIDC: `ctl.GetIdentity(email)` succeeds
+  vpanic : Bool   -- Nebula: the library call `c.Verify(now, p.caPool)` itself aborts (nebula v1.9.5 hands a
+                  -- 65-byte P-256 CA key to `ed25519.Verify` when the presented certificate says curve 25519)
   deriving DecidableEq, Repr
 
-def Cr.none : Cr := ⟨false, false, false, false, false, false, false⟩
+def Cr.none : Cr := ⟨false, false, false, false, false, false, false, false⟩
 
 /-- the SSH certificate in the `sshpop` header -/
 structure Pop where
@@ -254,6 +256,8 @@ structure Tok where
   fragEsc : Str        -- the same, escaped as `URL.String()` prints a fragment
   hasSSH : Bool        -- `claims.Step != nil && claims.Step.SSH != nil`
   sshTypeOk : Bool     -- `step.ssh.certType` is empty or `sshutil.CertTypeFromString` accepts it
+  nebSshOk : Bool      -- Nebula: `step.ssh.principals` are the certificate's name or IPs and
+                       -- `step.ssh.certType` is empty or exactly "host" (true when there is no `step.ssh`)
   pop : Option Pop     -- `ExtractSSHPOPCert` result
   cr : List Cr         -- one per configured provisioner, same order as `Config.provs`
   deriving Repr
@@ -465,16 +469,23 @@ def k8sOp (p : Prov) (c : Cr) (now : Int) (op : Op) (t : Tok) : Out Unit :=
     k8sTok p c now t
   | .sshRevoke | .sshRenew | .sshRekey => baseReject
 
-def nebulaTok (cfg : Config) (p : Prov) (c : Cr) (now : Int) (op : Op) (t : Tok) : Out Unit := do
+def nebulaChk (cfg : Config) (p : Prov) (c : Cr) (now : Int) (op : Op) (t : Tok) : Out Unit := do
   need c.chain .chain
   need c.sig .signature
   claimsAudSub cfg p now op t
 
-/-- Nebula (tokens without `step.ssh` options: the principal validator is not modelled) -/
+def nebulaTok (cfg : Config) (p : Prov) (c : Cr) (now : Int) (op : Op) (t : Tok) : Out Unit :=
+  if c.vpanic then .crash else nebulaChk cfg p c now op t
+
+/-- Nebula -/
 def nebulaOp (cfg : Config) (p : Prov) (c : Cr) (now : Int) (op : Op) (t : Tok) : Out Unit :=
   match op with
   | .sign | .revoke => nebulaTok cfg p c now op t
-  | .sshSign | .sshRevoke => do
+  | .sshSign => do
+    need p.sshEnabled .sshDisabled
+    nebulaTok cfg p c now op t
+    need (!t.hasSSH || t.nebSshOk) .sshCertType
+  | .sshRevoke => do
     need p.sshEnabled .sshDisabled
     nebulaTok cfg p c now op t
   | .sshRenew | .sshRekey => baseReject
